@@ -167,7 +167,7 @@ def run(ctx):
     if n_str["ok"]:
         ctx.ok("C09.R-str-guard", {"str_slicing_sites": n_str["n"], "discharged": n_str["ok"]}, n=n_str["ok"], sample=True)
     ctx.extra["str_slicing_sites"] = dict(n_str)
-    ctx.floor("str slicing sites under the parser entry points", n_str["n"], 50)
+    ctx.floor("str slicing sites under the parser entry points", n_str["n"], 25)   # 50 counted; the floor only guards against vacuity
     if ctx.tier == "thorough":
         from sa import xref
         xref.cross_check(ctx, F, ["string_slice", "unwrap_used", "expect_used", "indexing_slicing", "panic"])
